@@ -13,8 +13,14 @@ def build_harness():
     if rc != 0:
         raise vlib.Infra("building harness/txn failed:\n" + out[-3000:])
 
-def run_harness(mode, n, seed, out, timeout=1500):
-    p = subprocess.run(["timeout", str(timeout), BIN, "-mode", mode, "-n", str(n), "-seed", str(seed), "-out", out],
+def gen_fixtures(wd, depth=3):
+    """MVCC fixtures: an edge cover of MC_MVCC's state graph (one command path per transition), see checks/c12.py."""
+    from checks.c12 import gen_scenarios
+    path, nex, nsim, total, _ = gen_scenarios(wd, depth, 0, 0, 1)
+    return path, nex
+
+def run_harness(mode, n, seed, out, timeout=1500, fixtures=None):
+    p = subprocess.run(["timeout", str(timeout), BIN, "-mode", mode, "-n", str(n), "-seed", str(seed), "-out", out] + (["-fixtures", fixtures] if fixtures else []),
                        stdout=subprocess.PIPE, stderr=subprocess.STDOUT, text=True, errors="replace")
     if p.returncode != 0 or not os.path.exists(out):
         raise vlib.Infra("txn harness (%s) failed rc=%s:\n%s" % (mode, p.returncode, p.stdout[-3000:]))
@@ -38,9 +44,13 @@ def run_txn_check(prop, families, tier, seed, replay, monitors=("TxnHistory",), 
     else:
         mc = model_check(wd)
         build_harness()
+        fixtures = None
         for mode, nq, nt in families:
             raw = os.path.join(wd, "raw_%s.ndjson" % mode)
-            run_harness(mode, nq if tier == "quick" else nt, seed, raw)
+            if mode in ("c05", "c14") and fixtures is None:
+                fixtures, nfix = gen_fixtures(wd, 3 if tier == "quick" else 4)
+                extra_cov = dict(extra_cov or {}, fixtures_generated=nfix)
+            run_harness(mode, nq if tier == "quick" else nt, seed, raw, fixtures=fixtures if mode in ("c05", "c14") else None)
             traces.append((mode, raw))
     stats = {}
     samples = []
@@ -71,6 +81,8 @@ def run_txn_check(prop, families, tier, seed, replay, monitors=("TxnHistory",), 
                 ev = events[line - 1]
                 ctx = runs[bisect.bisect_right(starts, line) - 1][1][0]
                 sig = "%s/%s/%s" % (mon, re.sub(r"[^a-z0-9]+", "-", rule.lower())[:70], ctx.get("kind", mode))
+                if ev.get("c") in ("snap_riter", "riter") and ev.get("hi") == 0:
+                    sig += "/reverse-scan-from-the-unbounded-end"
                 v.violation(sig, "line %d of %s trace: %s; event=%s; detail=%s" % (line, mode, rule, json.dumps({k: ev[k] for k in ev if k not in ("proj", "truth")})[:300],
                                                                                re.sub(r"\s+", " ", rawmsg)[:400]), replay_events=run_of(line))
         stats[mode] = st
